@@ -32,6 +32,7 @@ EXTENDS Integers, Sequences, FiniteSets, TLC, Json, IOUtils
 
 CONSTANTS Source,       \* "enum" | "file" | "segs"
           SegMax, ColMax, \* "segs": lines of 0..SegMax characters, text starting at column 0..ColMax
+          ExtraLineLen,   \* "enum": further line lengths (the default 80, 40)
           MaxLineLen,   \* linelen ranges over 0..MaxLineLen (0 = unlimited)
           MaxMaxLines,  \* maxlines ranges over 0..MaxMaxLines (0 = unlimited)
           Fixed
@@ -196,7 +197,7 @@ Init == \/ /\ Source \in {"enum", "file"} /\ col = 0 /\ lens = <<>>
            /\ ti \in 1..Len(Data)
            \* linebreakok = FALSE is the inline configuration (colorize_inline_pyval): no line length there
            /\ IF Source = "enum" THEN /\ lbok \in BOOLEAN /\ ml \in 0..MaxMaxLines
-                                      /\ ll \in (IF lbok THEN 0..MaxLineLen ELSE {0})
+                                      /\ ll \in (IF lbok THEN (0..MaxLineLen) \cup ExtraLineLen ELSE {0})
               ELSE ll = Data[ti].linelen /\ ml = Data[ti].maxlines /\ lbok = Data[ti].lbok
         \/ /\ Source = "segs" /\ ti = 0 /\ lbok = TRUE
            /\ ll \in 1..MaxLineLen /\ ml \in {0, MaxMaxLines} /\ col \in 0..ColMax
